@@ -24,13 +24,17 @@ static struct tv_obj *E(hwloc_obj_t o) { int i = tv_view_find(&V, o); return i <
 static hwloc_bitmap_t gen_set(vset *m)
 {
   vs_zero(m);
-  unsigned cls = (unsigned)hv_below(&R, 12);
+  unsigned cls = (unsigned)hv_below(&R, 14);
   struct tv_obj *root = &V.v[0];
   switch (cls) {
   case 0: break;                                                      /* empty */
   case 1: *m = root->cs; break;                                       /* whole topology */
   case 2: *m = root->cs; vs_set(m, 1900 + (unsigned)hv_below(&R, 50)); break;   /* not included in the root */
   case 3: vs_fill(m); break;                                          /* infinite */
+  case 12: case 13: { /* bits that only exist in the complete cpuset (offline / disallowed PUs): inside complete_cpuset, not inside cpuset */
+    struct tv_obj *e = &V.v[hv_below(&R, V.n)]; if (cls == 12 && e->has_sets) *m = e->cs; else if (cls == 13) *m = root->cs;
+    int added = 0; for (unsigned i = 0; i < VS_W && added < 3; i++) if (VS_BIT(&root->ccs, i) && !VS_BIT(&root->cs, i) && hv_chance(&R, 1, 2)) { vs_set(m, i); added++; }
+    break; }
   case 4: case 5: { /* one object's cpuset */
     struct tv_obj *e = &V.v[hv_below(&R, V.n)]; if (e->has_sets) *m = e->cs; break; }
   case 6: case 7: { /* union of 2-4 objects (straddling siblings) */
